@@ -189,7 +189,8 @@ impl AsyncClient for LoopClient {
         cap.body = bytes.clone();
         let req = Request::from_parts(parts, ());
         let svc = AsyncVerifServiceEndpoints::new(self.handler.clone());
-        let rt = Arc::new(ConjureRuntime::new());
+        // (the runtime as its `Default` impl makes it: the same runtime as `new()`)
+        let rt = Arc::<ConjureRuntime>::default();
         let path = req.uri().path().to_string();
         let segs = raw_segments(&path);
         let mut found = None;
